@@ -80,32 +80,63 @@ def select1(ctx: Ctx, chk) -> None:
     chk.rule(rule2, "the comparison is total for versions that differ only by trailing sections: `reported >= key` of AwesomeVersion is string-equal-or-greater and is false for 2.2.0 vs 2.2 although 2.2.0 < 2.2 is false too; accepted: not (reported < key)")
     rets = [n for n in ctx.own_nodes(f) if isinstance(n, ast.Return)]
     cn = Canon(I, f)
-    if len(rets) != 1:
-        raise AnalysisError("SELECT-1: get_protocol shape not recognised (returns)")
-    # locate next(<genexp>, default)
-    nexts = [n for n in ctx.own_nodes(f) if isinstance(n, ast.Call) and isinstance(n.func, ast.Name) and n.func.id == "next"]
-    if len(nexts) != 1 or len(nexts[0].args) != 2 or not isinstance(nexts[0].args[0], ast.GeneratorExp):
-        raise AnalysisError("SELECT-1: get_protocol is not of the recognised `next((table[k] for k in <order> if <pred>), default)` shape")
-    nx = nexts[0]
-    gen: ast.GeneratorExp = nx.args[0]
-    if len(gen.generators) != 1 or len(gen.generators[0].ifs) != 1 or not isinstance(gen.generators[0].target, ast.Name):
-        raise AnalysisError("SELECT-1: generator shape not recognised")
-    g = gen.generators[0]
-    kname = g.target.id
     param = f.positional_params[0]
-    # the returned value is the next(...) result (possibly through cast / a local)
-    chk.instance(rule)
-    rv = cn.canon(rets[0].value)
-    if "next(" in rv:
-        chk.ok(rule, f"{f.fq}::return", "returns the selected module", ctx.loc(f, rets[0]), sample=False)
+
+    class _Sel:
+        pass
+
+    gen = _Sel()  # .elt, .iter, .pred, .default, .kname, .node
+    nexts = [n for n in ctx.own_nodes(f) if isinstance(n, ast.Call) and isinstance(n.func, ast.Name) and n.func.id == "next"]
+    loops = [n for n in f.node.body if isinstance(n, ast.For)]
+    if len(nexts) == 1 and len(nexts[0].args) == 2 and isinstance(nexts[0].args[0], ast.GeneratorExp) and len(rets) == 1:
+        # shape (a): next((table[k] for k in <order> if <pred>), default)
+        ge = nexts[0].args[0]
+        if len(ge.generators) != 1 or len(ge.generators[0].ifs) != 1 or not isinstance(ge.generators[0].target, ast.Name):
+            raise AnalysisError("SELECT-1: generator shape not recognised")
+        gen.elt, gen.iter, gen.pred, gen.default, gen.kname, gen.node = ge.elt, ge.generators[0].iter, ge.generators[0].ifs[0], nexts[0].args[1], ge.generators[0].target.id, ge
+        chk.instance(rule)
+        rv = cn.canon(rets[0].value)
+        if "next(" in rv:
+            chk.ok(rule, f"{f.fq}::return", "returns the selected module", ctx.loc(f, rets[0]), sample=False)
+        else:
+            chk.refute(rule, f"{f.fq}::return", f"get_protocol returns `{rv[:80]}`, not the selected table entry", ctx.loc(f, rets[0]))
+    elif len(loops) == 1 and isinstance(loops[0].target, ast.Name) and not loops[0].orelse:
+        # shape (b): for k in <order>: if <pred>: return table[k]  ...  return default
+        lp = loops[0]
+        body = [b for b in lp.body if not (isinstance(b, ast.Expr) and isinstance(b.value, ast.Constant))]
+        if not (len(body) == 1 and isinstance(body[0], ast.If) and not body[0].orelse and len(body[0].body) == 1 and isinstance(body[0].body[0], ast.Return)):
+            raise AnalysisError("SELECT-1: selection loop shape not recognised")
+        after = [x for x in f.node.body[f.node.body.index(lp) + 1 :] if isinstance(x, ast.Return)]
+        if len(after) != 1:
+            raise AnalysisError("SELECT-1: fallback return after the selection loop not found")
+
+        def uncast(e):
+            while isinstance(e, ast.Call) and norm(e.func) == "cast" and len(e.args) == 2:
+                e = e.args[1]
+            return e
+
+        gen.elt, gen.iter, gen.pred, gen.default, gen.kname, gen.node = uncast(body[0].body[0].value), lp.iter, body[0].test, uncast(after[0].value), lp.target.id, lp
     else:
-        chk.refute(rule, f"{f.fq}::return", f"get_protocol returns `{rv[:80]}`, not the selected table entry", ctx.loc(f, rets[0]))
+        raise AnalysisError("SELECT-1: get_protocol is neither `next((table[k] for k in <order> if <pred>), default)` nor `for k in <order>: if <pred>: return table[k]` + fallback")
+    kname = gen.kname
+
+    class _G:
+        pass
+
+    g = _G()
+    g.iter, g.ifs = gen.iter, [gen.pred]
+
+    class _N:
+        pass
+
+    nx = _N()
+    nx.args = [None, gen.default]
     # element
     chk.instance(rule)
     if norm(gen.elt) == f"PROTOCOL_VERSIONS[{kname}]":
-        chk.ok(rule, f"{f.fq}::element", f"PROTOCOL_VERSIONS[{kname}]", ctx.loc(f, gen), sample=False)
+        chk.ok(rule, f"{f.fq}::element", f"PROTOCOL_VERSIONS[{kname}]", ctx.loc(f, gen.node), sample=False)
     else:
-        chk.refute(rule, f"{f.fq}::element", f"the generator yields `{norm(gen.elt)}`, not the table entry of the matching key", ctx.loc(f, gen))
+        chk.refute(rule, f"{f.fq}::element", f"the selection yields `{norm(gen.elt)}`, not the table entry of the matching key", ctx.loc(f, gen.node))
     # order
     chk.instance(rule)
     it = g.iter
@@ -150,10 +181,8 @@ def select1(ctx: Ctx, chk) -> None:
     chk.instance(rule2)
 
     def wrapped(e, name):
-        """e is AwesomeVersion(name) or name."""
-        if isinstance(e, ast.Call) and norm(e.func) == "AwesomeVersion" and len(e.args) == 1:
-            e = e.args[0]
-        return isinstance(e, ast.Name) and e.id == name
+        """e is AwesomeVersion(name) or name (possibly through a single-assignment local)."""
+        return cn.canon(e) in (name, f"AwesomeVersion({name})")
 
     neg = False
     p = pred
@@ -178,7 +207,7 @@ def select1(ctx: Ctx, chk) -> None:
         rel = {ast.Lt: "lt", ast.Gt: "gt", ast.LtE: "le", ast.GtE: "ge"}[rel]
     key = f"{f.fq}::predicate"
     loc = ctx.loc(f, pred)
-    uses_av = "AwesomeVersion" in norm(pred)
+    uses_av = "AwesomeVersion" in cn.canon(pred)
     if rel in ("ge", "nlt"):
         chk.ok(rule, key, f"`{norm(pred)}`: reported version not below the key", loc)
     else:
